@@ -170,7 +170,7 @@ let tree_check line =
   | ["ok"; text], Some rs ->
     let (a, t) = parse_case case rs in
     let out = cps_of_utf8 (unesc text) in
-    let inv_model = List.map (fun ((id, arg), _tc) -> (id, (match arg with None -> None | Some i -> Some (int_of_nat i)))) (invokes (paint_ops a t)) in
+    let inv_model = List.map (fun ((id, arg), _tc) -> (id, (match arg with None -> None | Some i -> Some (int_of_nat i)))) (all_calls a t) in
     let inv_impl = List.map (fun r -> (r.rid, r.rarg)) rs in
     if inv_model <> inv_impl then verdict false "benchmark-calls-differ-from-the-tree(ignored-or-listed-benchmark-run,or-a-case-missing)"
     else if not (paint_sb a t out) then
